@@ -110,6 +110,23 @@ def other_definition():
     return _OTHER[0]
 
 
+_OTHER_DOCS = []
+
+
+def load_other_documents():
+    """two small documents in the default namespace and without namespace are loaded (the loader keeps process-wide namespace state)"""
+    from space_packet_parser.xtce.definitions import XtcePacketDefinition
+    if not _OTHER_DOCS:
+        d = xdoc.new_defn("OR")
+        xdoc.add_param(d, "OP", uint(8))
+        xdoc.add_container(d, "OR", [("p", "OP")])
+        _OTHER_DOCS.append((xdoc.render(d, style="default", extra_ns=True).encode(), None))
+        _OTHER_DOCS.append((xdoc.render(d, style="none").encode(), None))
+        _OTHER_DOCS.append((xdoc.render(d, style="prefix", prefix="zz").encode(), "zz"))
+    for xml, prefix in _OTHER_DOCS:
+        XtcePacketDefinition.from_xtce(io.BytesIO(xml), xtce_ns_prefix=prefix, root_container_name="OR")
+
+
 def cycles(dobj, n=3):
     """orders after build and after each of n write/load cycles, the serialized documents G1..Gn+1, and checks."""
     from lxml import etree
@@ -123,6 +140,7 @@ def cycles(dobj, n=3):
         before = project.project(cur)
         g_a = write(cur)
         write(other_definition())       # writing is a function of the definition written: another document in between changes nothing
+        load_other_documents()          # ... and so does loading documents with other namespace conventions
         g_b = write(cur)
         if g_a != g_b:
             probs.append(f"two writes of the same definition differ (cycle {k})")
